@@ -21,7 +21,8 @@ from vk.ob import obligation, PARAM, THOROUGH, pick
 def ob_delete_step(p0: bool, t0: int, p2: bool, t2: int, p1: bool, t1: int, g1: List[int]) -> str:
     """
     pre: 1 <= t0 <= 200 and 1 <= t1 <= 200 and 1 <= t2 <= 200
-    pre: THOROUGH or (t2 == t0 and not p0)
+    pre: not p0 and (t2 == t0 or (THOROUGH and t2 == t1))
+    pre: len(g1) < 2 or g1[1] < 3
     pre: len(g1) <= (2 if THOROUGH else 1) and all(0 <= g < len(K.REFS) for g in g1)
     post: _.startswith("ok")
     """
